@@ -32,6 +32,39 @@ def view_tree(root):
     return out
 
 
+def key_names_check():
+    """'an exact picture': each link sits under the path spelled from the job's own varying state point keys and values --
+    <dotted key>/<value>/.../job -- whatever the keys are called (also nested keys under a parent whose name ends in 'sp')"""
+    import signac
+    from signac._utility import _nested_dicts_to_dotted_keys
+    out = []
+    universes = [[{"disp": {"x": v}, "wasp": {"n": w}} for v in (1, 2) for w in (3, 4)],
+                 [{"wasp": {"n": v}, "wan": w} for v in (1, 2) for w in (5, 6)],
+                 [{"sp": {"sp": {"a": v}}, "asp": v + 1} for v in (1, 2)]]
+    for sps in universes:
+        with dir_scratch() as d:
+            os.makedirs(d + "/p")
+            p = signac.init_project(d + "/p")
+            jobs = [p.open_job(sp).init() for sp in sps]
+            try:
+                p.create_linked_view(prefix=d + "/view")
+            except Exception as e:
+                out.append(f"create_linked_view over the state points {sps} raised {type(e).__name__}: {str(e)[:150]}")
+                continue
+            t = view_tree(d + "/view")
+            for j in jobs:
+                flat = {k: str(v) for k, v in _nested_dicts_to_dotted_keys(j.statepoint())}
+                mine = [k for k, v in t.items() if v[0] == "link" and v[1] == os.path.realpath(j.path)]
+                if len(mine) != 1:
+                    out.append(f"state points {sps}: {len(mine)} links for the job {j.statepoint()}")
+                    continue
+                comps = mine[0].split(os.sep)[:-1]
+                got = dict(zip(comps[0::2], comps[1::2]))
+                if len(comps) % 2 or any(flat.get(k) != v for k, v in got.items()):
+                    out.append(f"state points {sps}: the job {j.statepoint()} is linked at {mine[0]!r}, which does not spell its own keys and values {flat}")
+    return out
+
+
 def check_view(project, view, selected):
     t = view_tree(view)
     links = {k: v for k, v in t.items() if v[0] == "link"}
@@ -258,6 +291,15 @@ def run(tier="quick", seed=0):
                              "script": script_header() + f"sys.path.insert(0, '/verif')\nfrom pybound.c17 import spelling\nbad = spelling({u})\nassert not bad, bad\n"})
     for key, desc in probes():
         failures.append({"key": key, "description": desc, "script": ""})
+    try:
+        kn = key_names_check()
+    except Exception:
+        import traceback
+        kn = ["key-name probe crashed: " + traceback.format_exc()[-400:]]
+    evals += 3
+    for desc in kn[:2]:
+        failures.append({"key": "view:key-names", "description": desc,
+                         "script": script_header() + "sys.path.insert(0, '/verif')\nfrom pybound.c17 import key_names_check\nr = key_names_check()\nassert not r, r\n"})
     # the leaf/node check shared with export (a job's link must not sit inside another job's link path)
     try:
         from .c16 import path_checks
